@@ -22,12 +22,15 @@ var namePool = []string{"Zorbl", "Quixa", "Vemto", "Harnu", "Plecki", "Dwimo", "
 
 const (
 	autoNS    = "Vfyns"
-	autoClass = "Autol"
+	autoClass = "Autol"    // F
+	autoIface = "Shapi"    // G
+	autoAid   = "ShapiAid" // Gb: declared in G's file
+	autoSub   = "Circl"    // H extends F implements G
 )
 
 type names struct {
 	Sym  [nSym]string
-	Auto string // fully qualified autoloadable class
+	Auto string // fully qualified autoloadable class F (the others are derived from the namespace)
 }
 
 func pickNames(seed int64) names {
@@ -41,16 +44,34 @@ func pickNames(seed int64) names {
 }
 
 func (n names) of(i int) string {
-	if i == nameF {
+	switch i {
+	case nameF:
 		return n.Auto
+	case nameG:
+		return autoNS + "\\" + autoIface
+	case nameH:
+		return autoNS + "\\" + autoSub
+	case nameGb:
+		return autoNS + "\\" + autoAid
 	}
 	return n.Sym[i]
 }
 
-// autoDir creates the directory holding the autoloadable class file.
+var unitFile = [nUnits]string{uF: autoClass + ".zy", uG: autoIface + ".zy", uH: autoSub + ".zy"}
+
+// writeAutoFile creates the class-path directory: one file per unit.
 func writeAutoFile(dir string) error {
-	src := "namespace " + autoNS + ";\nclass " + autoClass + " { const TAG = \"F\"; public function tag() { return \"F\"; } }\n"
-	return os.WriteFile(filepath.Join(dir, autoClass+".zy"), []byte(src), 0o644)
+	files := map[string]string{
+		unitFile[uF]: "namespace " + autoNS + ";\nclass " + autoClass + " { const TAG = \"F\"; public function tag() { return \"F\"; } }\n",
+		unitFile[uG]: "namespace " + autoNS + ";\ninterface " + autoIface + " { const TAG = \"G\"; }\nclass " + autoAid + " { const TAG = \"Gb\"; public function tag() { return \"Gb\"; } }\n",
+		unitFile[uH]: "namespace " + autoNS + ";\nclass " + autoSub + " extends " + autoClass + " implements " + autoIface + " { const TAG = \"H\"; public function tag() { return \"H\"; } }\n",
+	}
+	for f, src := range files {
+		if err := os.WriteFile(filepath.Join(dir, f), []byte(src), 0o644); err != nil {
+			return err
+		}
+	}
+	return nil
 }
 
 // ---- the real side: one base VM + request-scoped VMs ---------------------------------------
@@ -184,6 +205,135 @@ func (w *world) loadFile(v, i, name int) runRes {
 	return runRes{Kind: g.Kind, Out: out.String(), Msg: g.Msg + g.PanicKey}
 }
 
+// loadAuto loads the file of a class-path unit directly through the VM (what `require` of that file
+// does), instead of letting the class path manager find it.
+func (w *world) loadAuto(v, unit int) runRes {
+	file := filepath.Join(w.dir, unitFile[unit])
+	var out strings.Builder
+	saved := data.WriteOutput
+	data.WriteOutput = func(s string) { out.WriteString(s) }
+	w.uncaught = nil
+	g := runner.Guard(func() {
+		_, acl := w.vm(v).LoadAndRun(file)
+		if acl == nil {
+			acl = w.uncaught
+		}
+		if acl != nil {
+			panic(acl)
+		}
+	})
+	data.WriteOutput = saved
+	return runRes{Kind: g.Kind, Out: out.String(), Msg: g.Msg + g.PanicKey}
+}
+
+// ---- the handler route ------------------------------------------------------------------------
+
+var reqSeq int // makes the path of every required file unique in the process (include keeps a process-global cache by path)
+
+// handlerBoot returns the boot script that leaves the callable in $h. BODY is a statement list,
+// EXPR the same work as one expression (arrow functions have no statement body).
+func handlerBoot(form, i int, body, expr string) string {
+	cls := fmt.Sprintf("VhkS%d", i)
+	fn := fmt.Sprintf("vhkf%d", i)
+	switch form {
+	case fPlain:
+		return "$h = function($t) { " + body + " };\n"
+	case fUse:
+		return "$x = 1;\n$h = function($t) use ($x) { $y = $x; " + body + " };\n"
+	case fUseRef:
+		return "$x = 1;\n$h = function($t) use (&$x) { $x = $x + 1; " + body + " };\n"
+	case fStatic:
+		return "$h = static function($t) { " + body + " };\n"
+	case fArrow:
+		return "$h = fn($t) => " + expr + ";\n"
+	case fNested:
+		return "$x = 1;\n$h = function($t) use ($x) { $z = $x; $g = function($u) use ($x) { $y = $x; " + body + " }; return $g($t); };\n"
+	case fViaFunc:
+		return "function " + fn + "($t) { " + body + " }\n$h = function($t) { return " + fn + "($t); };\n"
+	case fViaStatic:
+		return "class " + cls + " { public static function run($t) { " + body + " } }\n$h = function($t) { return " + cls + "::run($t); };\n"
+	case fViaNew:
+		return "class " + cls + " { public function run($t) { " + body + " } }\n$h = function($t) { $s = new " + cls + "(); return $s->run($t); };\n"
+	case fInMethod:
+		return "class " + cls + " { public function mk() { return function($t) { " + body + " }; } }\n$k = new " + cls + "();\n$h = $k->mk();\n"
+	case fInStatic:
+		return "class " + cls + " { public static function mk() { return function($t) { " + body + " }; } }\n$h = " + cls + "::mk();\n"
+	case fObjMethod:
+		return "class " + cls + " { public function run($t) { " + body + " } }\n$s = new " + cls + "();\n$h = function($t) use ($s) { return $s->run($t); };\n"
+	}
+	panic("unknown handler form")
+}
+
+// handler: boot on the base VM, then serve one request on VM v exactly as HotHandler.ServeHTTP does
+// (registration context -> per-request child context -> SetVM(request VM) -> Call).
+func (w *world) handler(v, form, i, name int) runRes {
+	id := fmt.Sprintf("d%d", i)
+	reqSeq++
+	sub := filepath.Join(w.dir, fmt.Sprintf("req-%d", os.Getpid()))
+	os.MkdirAll(sub, 0o755)
+	file := filepath.Join(sub, fmt.Sprintf("%s_r%d.zy", id, reqSeq))
+	nm := w.nm.of(name)
+	fileSrc := defSource(kClass, nm, id)
+	body := strings.TrimSpace(defSource(kFunc, nm, id)) + " require '" + file + "'; $o = new \\" + w.nm.of(nameF) + "(); return 1;"
+	expr := "[require '" + file + "', new \\" + w.nm.of(nameF) + "()]"
+	if form == fArrow {
+		// no statement body: the function comes from the file too (and the file returns a value:
+		// an array literal element without one crashes the interpreter, which is not this property)
+		fileSrc += defSource(kFunc, nm, id) + "return 1;\n"
+	}
+	if err := os.WriteFile(file, []byte(fileSrc), 0o644); err != nil {
+		panic(err)
+	}
+	defer os.Remove(file)
+	var out strings.Builder
+	saved := data.WriteOutput
+	data.WriteOutput = func(s string) { out.WriteString(s) }
+	w.uncaught = nil
+	g := runner.Guard(func() {
+		p := w.parserFor(0)
+		prog, acl := p.ParseString(handlerBoot(form, i, body, expr), id+"-boot.zy")
+		if acl != nil {
+			panic(acl)
+		}
+		vars := p.GetVariables()
+		bootCtx := w.base.CreateContext(vars)
+		if _, acl = prog.GetValue(bootCtx); acl == nil {
+			acl = w.uncaught
+		}
+		if acl != nil {
+			panic(acl)
+		}
+		var fv *data.FuncValue
+		for _, vr := range vars {
+			if vr.GetName() == "h" {
+				if val, ok := bootCtx.GetIndexValue(vr.GetIndex()); ok {
+					fv, _ = val.(*data.FuncValue)
+				}
+			}
+		}
+		if fv == nil {
+			panic("boot script left no callable in $h")
+		}
+		fvars := fv.Value.GetVariables()
+		regCtx := bootCtx.CreateContext(fvars) // newHandler: Handler{Ctx: ctx.CreateContext(vars)}
+		ctx := regCtx.CreateContext(fvars)     // ServeHTTP: f.Ctx.CreateContext(vars)
+		if v != 0 {
+			ctx.SetVM(w.vm(v)) // ServeHTTP: ctx.SetVM(NewTempVM(...))
+		}
+		if len(fvars) > 0 {
+			ctx.SetVariableValue(data.NewVariable("t", 0, nil), data.NewStringValue("req"))
+		}
+		if _, acl = fv.Value.Call(ctx); acl == nil {
+			acl = w.uncaught
+		}
+		if acl != nil {
+			panic(acl)
+		}
+	})
+	data.WriteOutput = saved
+	return runRes{Kind: g.Kind, Out: out.String(), Msg: g.Msg + g.PanicKey}
+}
+
 var wroteFiles = map[string]bool{}
 
 func (w *world) written(file string) bool { return wroteFiles[file] }
@@ -206,29 +356,50 @@ type probe struct {
 	Kinds   []int
 	Bool    bool // answers y/n instead of a definition identity
 	Script  bool
-	NoLoad  bool // does not trigger autoloading (only matters for the file-backed class)
-	ForAuto bool // also applied to the autoloadable class
+	NoLoad  bool // does not trigger autoloading (only matters for the class-path family)
+}
+
+// autoKind: kind of each class-path name; a probe applies to it when it looks that kind up.
+var autoKind = [nNames]int{nameF: kClass, nameG: kIface, nameH: kClass, nameGb: kClass}
+
+var autoNames = []int{nameF, nameG, nameGb, nameH}
+
+// scriptD: the script probes of phase D for the names other than F.
+var scriptD = [nNames]map[string]bool{
+	nameG:  {"interface_exists": true, "::TAG": true},
+	nameGb: {"new": true},
+	nameH:  {"new": true, "class_exists(,false)": true},
+}
+
+func (p probe) forAuto(name int) bool {
+	for _, k := range p.Kinds {
+		if k == autoKind[name] {
+			return true
+		}
+	}
+	return false
 }
 
 var probes = []probe{
-	{Name: "GetClass", Kinds: []int{kClass}, NoLoad: true, ForAuto: true},
-	{Name: "GetOrLoadClass", Kinds: []int{kClass}, ForAuto: true},
+	{Name: "GetClass", Kinds: []int{kClass}, NoLoad: true},
+	{Name: "GetOrLoadClass", Kinds: []int{kClass}},
 	{Name: "GetInterface", Kinds: []int{kIface}, NoLoad: true},
 	{Name: "GetOrLoadInterface", Kinds: []int{kIface}},
-	{Name: "LoadPkg", Kinds: []int{kClass, kIface}, ForAuto: true},
+	{Name: "LoadPkg", Kinds: []int{kClass, kIface}},
 	{Name: "GetFunc", Kinds: []int{kFunc}, NoLoad: true},
-	{Name: "class_exists", Kinds: []int{kClass}, Bool: true, Script: true, ForAuto: true},
-	{Name: "class_exists(,false)", Kinds: []int{kClass}, Bool: true, Script: true, NoLoad: true, ForAuto: true},
+	{Name: "class_exists", Kinds: []int{kClass}, Bool: true, Script: true},
+	{Name: "class_exists(,false)", Kinds: []int{kClass}, Bool: true, Script: true, NoLoad: true},
 	{Name: "interface_exists", Kinds: []int{kIface}, Bool: true, Script: true},
 	{Name: "function_exists", Kinds: []int{kFunc}, Bool: true, Script: true, NoLoad: true},
-	{Name: "new", Kinds: []int{kClass}, Script: true, ForAuto: true},
+	{Name: "new", Kinds: []int{kClass}, Script: true},
 	{Name: "call", Kinds: []int{kFunc}, Script: true, NoLoad: true},
-	{Name: "::TAG", Kinds: []int{kClass, kIface}, Script: true, ForAuto: true},
+	{Name: "::TAG", Kinds: []int{kClass, kIface}, Script: true},
 }
 
 const (
 	pNew  = 10
 	pCall = 11
+	pTag  = 12
 )
 
 // spellings of a name used by the probes: the exact one (full oracle) and two case variants
@@ -282,8 +453,13 @@ func judgeVariant(m *model, h []Op, v int, p probe, name int, got string) (rel, 
 
 func srcID(src string) string {
 	b := filepath.Base(src)
-	if b == autoClass+".zy" {
+	switch b {
+	case unitFile[uF]:
 		return "F"
+	case unitFile[uG]:
+		return "G"
+	case unitFile[uH]:
+		return "H"
 	}
 	// "d7.zy", "d7_n1.zy" (definitions file), "d7.zy(1) : eval()'d code"
 	if m := reDefSrc.FindString(b); m != "" {
@@ -425,15 +601,8 @@ func ids(a []int) string {
 // judge returns "" when the observation is admissible, else the relation violated; cat is the
 // outcome category (for the vacuity guard).
 func judge(m *model, h []Op, v int, p probe, name int, got string) (rel, exp, cat string) {
-	if name == nameF {
-		switch {
-		case got == "F" || got == "y":
-			return "", "F", "auto:resolved"
-		case p.NoLoad && (got == "-" || got == "n"):
-			return "", "F or unresolved (probe does not autoload)", "auto:not-loaded-yet"
-		default:
-			return "autoload-broken", "F (class file is on the class path; every VM could load it before)", ""
-		}
+	if name >= nSym {
+		return judgeAuto(m, v, p, name, got)
 	}
 	al := m.allowed(v, p.Kinds, name)
 	mu := m.must(v, p.Kinds, name) // al minus the eval-requested definitions (those may stay unresolved)
@@ -526,6 +695,69 @@ func judge(m *model, h []Op, v int, p probe, name int, got string) (rel, exp, ca
 	return "foreign-definition", "one of " + ids(al), ""
 }
 
+// autoAnswers: what a probe may print for a class-path name that resolves.
+var autoAnswers = [nNames][]string{nameF: {"F", "y"}, nameG: {"G", "y"}, nameH: {"H", "y"}, nameGb: {"G", "Gb", "y"}}
+
+// judgeAuto judges a probe of a class-path name and, for a loading probe, advances the model (the
+// lookup is a trigger). Presence only: all copies of a unit come from the same file.
+func judgeAuto(m *model, v int, p probe, name int, got string) (rel, exp, cat string) {
+	u := unitOf[name]
+	resolved := false
+	for _, a := range autoAnswers[name] {
+		if got == a {
+			resolved = true
+		}
+	}
+	if !resolved && got != "-" && got != "n" && !strings.HasPrefix(got, "!") {
+		return "foreign-definition", "one of " + strings.Join(autoAnswers[name], "/") + " or unresolved", ""
+	}
+	kind := kindName[autoKind[name]]
+	_ = kind
+	sure, may := m.sure(v, u), m.may(v, u)
+	if !p.NoLoad && autoloadable(name) {
+		// loading lookup: the file is on the class path, so the name must resolve, now and ever after
+		if !resolved {
+			if sure {
+				return hiddenAuto(m, v, u), nameLabel(name) + " (loaded for this VM before)", ""
+			}
+			return "autoload-broken", nameLabel(name) + " (file is on the class path; every VM could load it before)", ""
+		}
+		if sure {
+			return "", nameLabel(name), "auto:pure-lookup"
+		}
+		m.trigger(v, u)
+		return "", nameLabel(name), "auto:resolved"
+	}
+	switch {
+	case resolved && !may:
+		exp = "unresolved (nobody loaded " + nameLabel(unitName[u]) + " for this VM: only other temporary VMs did)"
+		if v == 0 {
+			return "leak-to-base", exp, ""
+		}
+		return "leak-to-temp", exp, ""
+	case resolved && sure:
+		return "", nameLabel(name), "auto:visible"
+	case resolved:
+		return "", nameLabel(name) + " or unresolved (autoloaded through another temporary VM: where it lands is left open)", "auto:open-resolved"
+	case sure:
+		return hiddenAuto(m, v, u), nameLabel(name), ""
+	case may:
+		return "", nameLabel(name) + " or unresolved", "auto:open-unresolved"
+	default:
+		return "", "unresolved", "auto:absent"
+	}
+}
+
+func hiddenAuto(m *model, v, u int) string {
+	if v == 0 {
+		return "base-lost-own"
+	}
+	if m.baseYes[u] {
+		return "base-def-hidden"
+	}
+	return "own-def-hidden"
+}
+
 func vmKind(v int) string {
 	if v == 0 {
 		return "base"
@@ -614,18 +846,67 @@ func execute(h []Op, nm names, dir string, wantRaw bool) execResult {
 			}
 		}
 	}
-	// autoFirst: before anything else in a lookup round, every temp (oldest first), then the base,
-	// asks for the autoloadable class through the Go API — i.e. with whatever parser binding the
-	// preceding ops left on that TempVM (probe scripts re-bind it), and before the base has the class.
-	autoFirst := func(step int) {
+	// autoRound observes the class-path family in phases, so that a lookup which must be pure is
+	// told apart from one that legitimately loads a file:
+	//   A  non-loading Go lookups of every class-path name on every VM (sweep)
+	//   B  every VM (temps oldest first, base last) looks up, through every loading route, the names
+	//      it surely resolves already — own direct loads, own earlier autoloads, the base's — then
+	//      sweep again: nothing may have become visible anywhere else
+	//   C  every VM in the same order asks for all names (first use = autoload trigger), sweep after
+	//      each VM. Go API only — i.e. with whatever parser binding the preceding ops left on that
+	//      TempVM (probe scripts re-bind it) and before the base has loaded anything.
+	//   D  (final observation only) script probes; by now the base has loaded every unit, so every
+	//      VM must resolve everything: all script routes for F, one or two for the others; last sweep.
+	autoRound := func(step int, final bool) {
 		order := append(m.live()[1:], 0)
-		for _, v := range order {
-			for pi, p := range probes {
-				if !p.Script && p.ForAuto {
-					check(step, v, pi, nameF, false)
+		sweep := func() {
+			for _, v := range m.live() {
+				for _, a := range autoNames {
+					for pi, p := range probes {
+						if !p.Script && p.NoLoad && p.forAuto(a) {
+							check(step, v, pi, a, false)
+						}
+					}
 				}
 			}
 		}
+		sweep()
+		for _, v := range order {
+			for _, a := range autoNames {
+				if !m.sure(v, unitOf[a]) {
+					continue
+				}
+				for pi, p := range probes {
+					if !p.Script && !p.NoLoad && p.forAuto(a) {
+						check(step, v, pi, a, false)
+					}
+				}
+			}
+		}
+		sweep()
+		for _, v := range order {
+			for _, a := range autoNames {
+				for pi, p := range probes {
+					if !p.Script && p.forAuto(a) {
+						check(step, v, pi, a, final)
+					}
+				}
+			}
+			sweep()
+		}
+		if !final {
+			return
+		}
+		for _, v := range m.live() {
+			for _, a := range autoNames {
+				for pi, p := range probes {
+					if p.Script && p.forAuto(a) && (a == nameF || scriptD[a][p.Name]) {
+						check(step, v, pi, a, true)
+					}
+				}
+			}
+		}
+		sweep()
 	}
 	check = func(step, v, pi, name int, final bool) {
 		p := probes[pi]
@@ -657,7 +938,14 @@ func execute(h []Op, nm names, dir string, wantRaw bool) execResult {
 			id := fmt.Sprintf("d%d", i)
 			w.run(o.VM, defSource(o.Kind, nm.of(o.Name), id), id+".zy", false)
 		case opLoad:
-			w.loadFile(o.VM, i, o.Name)
+			if o.Name >= nSym {
+				w.loadAuto(o.VM, unitOf[o.Name])
+			} else {
+				w.loadFile(o.VM, i, o.Name)
+			}
+		case opHandler:
+			r := w.handler(o.VM, o.Form, i, o.Name)
+			res.Cats["handler:"+formName[o.Form]+":"+r.Kind]++
 		case opEval:
 			id := fmt.Sprintf("d%d", i)
 			src := ""
@@ -665,6 +953,17 @@ func execute(h []Op, nm names, dir string, wantRaw bool) execResult {
 				src += "eval('" + strings.TrimSpace(defSource(k, nm.of(o.Name), id)) + "');\n"
 			}
 			w.run(o.VM, src, id+".zy", false)
+		case opLookup:
+			// judged against the model as it is before the op: the lookups themselves advance it
+			autoRound(i, false)
+		case opNew:
+			if o.Name >= nSym {
+				pi := pNew
+				if autoKind[o.Name] == kIface {
+					pi = pTag
+				}
+				check(i, o.VM, pi, o.Name, false)
+			}
 		}
 		m.apply(o, i)
 		if o.defines() {
@@ -672,7 +971,6 @@ func execute(h []Op, nm names, dir string, wantRaw bool) execResult {
 		}
 		switch o.K {
 		case opLookup:
-			autoFirst(i)
 			for _, v := range m.live() {
 				for n := 0; n < usedNames(); n++ {
 					for pi, p := range probes {
@@ -681,30 +979,22 @@ func execute(h []Op, nm names, dir string, wantRaw bool) execResult {
 						}
 					}
 				}
-				for pi, p := range probes {
-					if !p.Script && p.ForAuto {
-						check(i, v, pi, nameF, false)
-					}
-				}
 			}
 		case opNew:
-			check(i, o.VM, pNew, o.Name, false)
+			if o.Name < nSym {
+				check(i, o.VM, pNew, o.Name, false)
+			}
 		case opCall:
 			check(i, o.VM, pCall, o.Name, false)
 		}
 	}
 	last := len(h) - 1
 	w.newRound()
-	autoFirst(last)
+	autoRound(last, true)
 	for _, v := range m.live() {
 		for n := 0; n < nSym; n++ {
 			for pi := range probes {
 				check(last, v, pi, n, true)
-			}
-		}
-		for pi, p := range probes {
-			if p.ForAuto {
-				check(last, v, pi, nameF, true)
 			}
 		}
 	}
